@@ -24,6 +24,7 @@ struct EnumState {
   uint64_t evaluations;
   std::string current;
   const char *target;
+  unsigned long shard_i, shard_n, counter;
 };
 inline EnumState &est() {
   static EnumState e;
@@ -46,6 +47,7 @@ inline void enum_init(int argc, char **argv, const char *target) {
     else if (s == "--replay") replay = nx, ++i;
     else if (s == "--seed") e.seed = strtoull(nx, 0, 10), ++i;
     else if (s == "--tier") e.thorough = !strcmp(nx, "thorough"), ++i;
+    else if (s == "--shard") { sscanf(nx, "%lu/%lu", &e.shard_i, &e.shard_n); ++i; }
     else if (s == "-v") ctx().verbose = true;
   }
   Ctx &c = ctx();
@@ -76,6 +78,7 @@ inline bool enum_begin(const std::string &key) {
   EnumState &e = est();
   if (e.stop) return false;
   if (!e.replay_key.empty() && e.replay_key != key) return false;
+  if (e.replay_key.empty() && e.shard_n > 1 && (e.counter++ % e.shard_n) != e.shard_i) return false;
   e.current = key;
   if (crash_area()) {
     CrashArea *a = crash_area();
